@@ -758,6 +758,80 @@ func init() {
 		return nil
 	}
 
+	// System level (Authority.tla): random public stores of delegations issued by anyone about anything;
+	// for each invocation EVERY proof list over the store is tried on the real code.
+	drivers["authority"] = func(seed int64, n int, emit func(any)) error {
+		rng := rand.New(rand.NewSource(seed))
+		w := newWorld(seed, fastAlgs)
+		names := []string{"A", "B", "C", "M"}
+		cmds := [][]string{chars("/a"), chars("/a/b"), chars("/ab"), chars("/")}
+		pols := [][][]bool{{}, {{true, false, false, false}}, {{true, true, false, false}, {true, false, true, false}}, {{true, true, true, true}}}
+		for it := 0; it < n; it++ {
+			sz := 1 + rng.Intn(4)
+			var store []absLink
+			sub := names[rng.Intn(2)]
+			for len(store) < sz {
+				l := absLink{Iss: names[rng.Intn(4)], Aud: names[rng.Intn(4)], Sub: sub, Cmd: cmds[rng.Intn(len(cmds))], Pol: pols[rng.Intn(len(pols))], Nbf: -1, Exp: -1}
+				switch rng.Intn(6) {
+				case 0:
+					l.Sub = names[rng.Intn(4)]
+				case 1:
+					l.Sub = "Undef"
+				}
+				if len(store) == 0 && rng.Intn(3) != 0 {
+					l.Iss, l.Sub = sub, sub // usually there is a genuine root
+				} else if len(store) > 0 && rng.Intn(2) == 0 {
+					l.Iss = store[rng.Intn(len(store))].Aud // often connected
+				}
+				dup := false
+				for _, o := range store {
+					if fmt.Sprint(o) == fmt.Sprint(l) {
+						dup = true
+					}
+				}
+				if !dup {
+					store = append(store, l)
+				}
+			}
+			for q := 0; q < 3; q++ {
+				inv := absInv{Iss: names[rng.Intn(4)], Sub: sub, Aud: "None", Cmd: cmds[rng.Intn(3)], Arg: rng.Intn(2), Exp: -1, Hook: "none"}
+				if rng.Intn(2) == 0 && len(store) > 0 {
+					inv.Iss = store[rng.Intn(len(store))].Aud
+				}
+				if rng.Intn(4) == 0 {
+					inv.Aud = names[rng.Intn(4)]
+					if inv.Aud == inv.Sub {
+						inv.Aud = "None"
+					}
+				}
+				found := false
+				tried := 0
+				var rec func(prefix []absLink)
+				rec = func(prefix []absLink) {
+					if found {
+						return
+					}
+					c := chainCase{Inv: inv, Links: prefix, Now: 1}
+					got, _, err := w.validateReal(&c, tried)
+					tried++
+					if err == nil && got {
+						found = true
+						return
+					}
+					if len(prefix) >= len(store) {
+						return
+					}
+					for _, l := range store {
+						rec(append(append([]absLink{}, prefix...), l))
+					}
+				}
+				rec(nil)
+				emit(map[string]any{"ev": "Explore", "store": store, "inv": evInv{inv.Iss, inv.Sub, inv.Aud, inv.Cmd, inv.Arg, inv.Exp, inv.Hook}, "any_allowed": found, "tried": tried})
+			}
+		}
+		return nil
+	}
+
 	// The repository's own fixture store: every proof list of length <= 2 over the sealed
 	// delegations of delegationtest (read from /repo), plus n sampled longer lists biased towards
 	// connected ones, for every persona as invoker, three commands, valid / invalid / empty
